@@ -342,6 +342,23 @@ def run(chk):
          'inside string literals) are rewritten before parsing' % [
              norm(c.args[0], 40) for c in apps if c.args], fi=rc)
 
+  # every expression node carries the span of the very text it was parsed
+  # from: all paths of ParseExpression store its own argument as the heritage
+  pe = FnView(repo, 'parse.ParseExpression')
+  par0 = pe.fi.params[0]
+  stores = [n for n in pe.cfg.stmt_nodes() if isinstance(pe.cfg.stmt[n], ast.Assign) and
+            isinstance(pe.cfg.stmt[n].targets[0], ast.Subscript) and
+            const_str(pe.cfg.stmt[n].targets[0].slice) == 'expression_heritage' and
+            dotted(pe.cfg.stmt[n].value) == par0]
+  rets = [(n, r) for n, r in pe.returns() if r.value is not None and
+          not (isinstance(r.value, ast.Constant) and r.value.value is None)]
+  chk.ob('C15-R2', bool(stores) and bool(rets) and all(
+      pe.cfg.must_pass_before(n, stores) for n, r in rets), None,
+         'ParseExpression stamps every tree it returns with the span of its own argument',
+         'a path returns a tree whose expression_heritage was not set from the '
+         'text being parsed (a cached or shared tree): diagnostics point into '
+         'another statement', fi=pe.fi)
+
   sv = FnView(repo, 'parse.Strip')
   # the test for an outer pair mentions '(' (directly or as argument of a helper)
   tests = [n for n in sv.cfg.stmt_nodes() if isinstance(sv.cfg.stmt[n], (ast.If, ast.While)) and
